@@ -99,6 +99,61 @@ func recvName(fd *ast.FuncDecl) string {
 }
 
 // isGuard: conditions that protect an index, slice or dereference.
+// endsLoop: the block leaves the loop for good (its last statement is a return or an unlabelled break).
+func endsLoop(b *ast.BlockStmt) bool {
+	if b == nil || len(b.List) == 0 {
+		return false
+	}
+	switch s := b.List[len(b.List)-1].(type) {
+	case *ast.ReturnStmt:
+		return true
+	case *ast.BranchStmt:
+		return s.Tok == token.BREAK && s.Label == nil
+	}
+	return false
+}
+
+// loopCondOf recognises a condition-less `for` whose first statement decides whether the loop goes on and
+// returns the condition of the equivalent `for c {…}` together with that if statement:
+// `for { if c {B} else {return/break} }`, `for { if !c {return/break}; B }`.
+func loopCondOf(f *ast.ForStmt) (ast.Expr, *ast.IfStmt) {
+	if f.Cond != nil || f.Init != nil || f.Post != nil || f.Body == nil || len(f.Body.List) == 0 {
+		return nil, nil
+	}
+	ifs, ok := f.Body.List[0].(*ast.IfStmt)
+	if !ok || ifs.Init != nil {
+		return nil, nil
+	}
+	if els, ok := ifs.Else.(*ast.BlockStmt); ok && endsLoop(els) && !endsLoop(ifs.Body) && len(f.Body.List) == 1 {
+		return ifs.Cond, ifs
+	}
+	if ifs.Else == nil && endsLoop(ifs.Body) {
+		return negate(ifs.Cond), ifs
+	}
+	return nil, nil
+}
+
+func negate(e ast.Expr) ast.Expr {
+	switch x := e.(type) {
+	case *ast.ParenExpr:
+		return negate(x.X)
+	case *ast.UnaryExpr:
+		if x.Op == token.NOT {
+			if p, ok := x.X.(*ast.ParenExpr); ok {
+				return p.X
+			}
+			return x.X
+		}
+	case *ast.BinaryExpr:
+		flip := map[token.Token]token.Token{token.LSS: token.GEQ, token.GEQ: token.LSS, token.GTR: token.LEQ, token.LEQ: token.GTR,
+			token.EQL: token.NEQ, token.NEQ: token.EQL}
+		if op, ok := flip[x.Op]; ok {
+			return &ast.BinaryExpr{X: x.X, Op: op, Y: x.Y, OpPos: x.OpPos}
+		}
+	}
+	return &ast.UnaryExpr{Op: token.NOT, X: &ast.ParenExpr{X: e}}
+}
+
 func isGuard(cond string) bool {
 	return strings.Contains(cond, "len(") || strings.Contains(cond, "nil") || strings.Contains(cond, "== -1") ||
 		strings.Contains(cond, "> 0") || strings.Contains(cond, ">= 0")
@@ -284,6 +339,7 @@ func main() {
 						sites = append(sites, site{tg.dir, fn, kind, t, occ[k], exprText(fset, e)})
 						occ[k]++
 					}
+					consumed := map[*ast.IfStmt]bool{}
 					ast.Inspect(fd.Body, func(n ast.Node) bool {
 						switch x := n.(type) {
 						case *ast.IndexExpr:
@@ -323,12 +379,16 @@ func main() {
 								}
 							}
 						case *ast.IfStmt:
-							if t := exprText(fset, x.Cond); isGuard(t) {
+							if t := exprText(fset, x.Cond); isGuard(t) && !consumed[x] {
 								add("guard", x.Cond)
 							}
 						case *ast.ForStmt:
 							if x.Cond != nil { // every loop bound is a guard
 								add("guard", x.Cond)
+							} else if c, ifs := loopCondOf(x); c != nil {
+								// normal form: `for { if c {B} else {return} }` and `for { if !c {break}; B }` are `for c {B}`
+								consumed[ifs] = true
+								add("guard", c)
 							}
 						}
 						return true
